@@ -289,6 +289,13 @@ class C11(Prop):
         return out, None
 
     def run_case(self, case):
+        try:
+            return self._run_case(case)
+        except rc.SetupNotReady as error:
+            from harness.runner import inconclusive
+            return inconclusive("setup_not_ready", {"scn:" + case["scn"]})
+
+    def _run_case(self, case):
         scns = self.scenarios()
         scn = scns[case["scn"]]
         labels = {"scn:" + case["scn"]}
@@ -365,7 +372,10 @@ class C11(Prop):
 def baseline_log_for(prop, name, order):
     key = (prop.id, name, tuple(order))
     if key not in _BASE:
-        _BASE[key] = rc.run_schedule(prop.scenarios()[name], {"order": list(order), "preempt": []}, keep_log=True).log
+        try:
+            _BASE[key] = rc.run_schedule(prop.scenarios()[name], {"order": list(order), "preempt": []}, keep_log=True).log
+        except rc.SetupNotReady:
+            _BASE[key] = []
     return _BASE[key]
 
 
